@@ -124,7 +124,7 @@ func TestC25(t *testing.T) {
 	var jobs []job
 	for _, c := range combos {
 		for rep := 0; rep < reps; rep++ {
-			jobs = append(jobs, job{c, "transfer", rep}, job{c, "flip", rep}, job{c, "truncate", rep}, job{c, "close", rep})
+			jobs = append(jobs, job{c, "transfer", rep}, job{c, "flip", rep}, job{c, "truncate", rep}, job{c, "close", rep}, job{c, "empty-records", rep})
 			if c.v == tls.VersionTLS13 {
 				jobs = append(jobs, job{c, "keyupdate", rep}, job{c, "coalesced", rep}, job{c, "upload-rekey", rep})
 			}
@@ -294,6 +294,22 @@ func TestC25(t *testing.T) {
 			x2 := pump(h.Client, h.Server, mkChunks(3), bufs, nil)
 			check("c2s", x2, false, 0)
 			r.Count("key_updates_sent", int64(upd))
+		case "empty-records":
+			// a peer that puts zero-length application_data records between its data (legal in
+			// every version; some stacks use them as keep-alives or traffic-analysis cover):
+			// they carry no bytes and must not disturb the stream
+			sentEmpty := 0
+			x := pump(h.Server, h.Client, mkChunks(6), bufs, func(k int) {
+				for e := 0; e < 1+(k+j.rep)%3; e++ {
+					if err := tls.VerifWriteEmptyRecord(h.Server, 23); err == nil {
+						sentEmpty++
+					}
+				}
+			})
+			check("s2c", x, false, 0)
+			x2 := pump(h.Client, h.Server, mkChunks(2), bufs, nil)
+			check("c2s", x2, false, 0)
+			r.Count("empty_application_data_records_sent", int64(sentEmpty))
 		case "upload-rekey":
 			// a long upload during which the server has nothing to say but rotates its sending
 			// keys again and again (each KeyUpdate in a record of its own, no application data
@@ -435,6 +451,7 @@ func TestC25(t *testing.T) {
 	if !weak {
 		r.Floor("key_updates_sent", 5)
 		r.Floor("uploads_with_33_or_more_key_updates", 3)
+		r.Floor("empty_application_data_records_sent", 100)
 	}
 }
 
